@@ -37,6 +37,7 @@ rej = [m for m in metas if m.get("rejected")]
 t1, t2, t3, t4 = tally(r1), tally(r2), tally(r3), tally(r4)
 final_fi = sum(1 for m in metas if not m.get("rejected") and ((m.get("checks") or {}).get(m["property"], {}).get("kind") == "failing-input"))
 valid = [m for m in metas if not m.get("rejected")]
+nsub = sum(1 for m in metas if (m.get("suite") or {}).get("ignored"))
 tfired = sum(1 for m in metas if (m.get("checks") or {}).get(m["property"], {}).get("broken_obligations"))
 
 print(f"""## 12. Seeded changes: which check catches which
@@ -51,7 +52,11 @@ find different mechanisms). Each change was confirmed here before being kept: `t
 demonstration on the unchanged tree (must pass), applies the patch (`git apply`), runs the
 demonstration again (must fail), runs `./check <property> --tier quick`, and restores the tree;
 `tools/seed_confirm.py` applies each patch in a scratch worktree and runs the pinned suite of
-`/root/.vp/BASELINE.json`, comparing with its `stable_pass` list (`meta.json["suite"]`). Everything is
+`/root/.vp/BASELINE.json`, comparing with its `stable_pass` list (`meta.json["suite"]`; for the {nsub} changes confirmed last the
+command ran with `--ignore=tests/pyspark --ignore=tests/modin --ignore=tests/dask` — 2914 of the 3505 stable tests —
+because those three directories start JVM / ray / dask clusters and eighteen such suites side by side brought the machine to a
+load average above 2000 and into the runner's time limit; the agents ran `tests/pyspark/test_schemas_on_pyspark_pandas.py`
+themselves wherever a change touches the pandas backends, see each `notes.md`). Everything is
 kept under `/verif/seeded/<id>/` (`patch.diff`, `demo.py`, the agent's `notes.md`, `meta.json` with the
 property, what the change needs to manifest, what was run, the first and the final verdict; ids `-A`,
 `-B` are round 1, `-C`, `-D` round 2, `-E`, `-F` round 3, `-G`, `-H` round 4). None of these changes is committed in `/repo`. Three round-1
